@@ -178,7 +178,7 @@ func c07History(r *hx.Run, w *W, ps *plans, rnd *rand.Rand, in c07Inst, hi int) 
 				quitter := hx.NewClient(w.Clock.Now)
 				defer quitter.CloseIdle()
 				qdone := make(chan struct{})
-				savedBefore := w.Pts.Count("hfp.saved") + w.Pts.Count("cacheable.saved")
+				savedBefore := completionsDone(w.Pts)
 				go func() {
 					defer close(qdone)
 					quitter.Do(hx.Req{Addr: in.addr, Host: "c07.example", URI: uri, Timeout: 10 * time.Second})
@@ -189,7 +189,7 @@ func c07History(r *hx.Run, w *W, ps *plans, rnd *rand.Rand, in c07Inst, hi int) 
 				quitter.Abort()
 				<-qdone
 				close(gate)
-				hx.WaitUntil(10*time.Second, func() bool { return w.Pts.Count("hfp.saved")+w.Pts.Count("cacheable.saved") > savedBefore })
+				hx.WaitUntil(10*time.Second, func() bool { return completionsDone(w.Pts) > savedBefore })
 				m.afterFetch(0, ans{Kind: "nocache"}, now)
 				r.Add("probes_whose_client_went_away", 1)
 				trace = append(trace, map[string]interface{}{"step": st.desc, "now": now, "answer": "client_abort", "model_after": m.String()})
